@@ -13,8 +13,11 @@ which the real writer / reader pair fails (replayed on the real code, see KNOWN_
   * symbols: the writer prints the bare name, so the name must lex as one plain identifier:
     non-empty, made of characters that `read_word` keeps, not starting like a number, `#` form or
     `|`, and not one of the spellings the lexer maps to another symbol (`defn`, `fn`, `λ`)   [K12a, K12b];
-  * lists, pairs, vectors: the first element is not the symbol `unquote`, `unquote-splicing` or
-    `quasiquote` (the reader's quasi-quotation bookkeeping renames such heads)               [K12c];
+  * lists, vectors: the first element is not the symbol `unquote` or `unquote-splicing` (the reader's
+    quasi-quotation bookkeeping renames such heads when a child list closes at depth 0) - unless every other
+    element is an atom (then no child closes): `(unquote x)`, `(unquote-splicing x)` with atomic `x` are inside
+    the class, and so is `(quasiquote d)` / any list headed by `quasiquote`; pairs: the car is not one of the
+    two renamed symbols                                                                       [K12c];
   * pairs: the cdr is not a list (`cons` onto a list gives a list - an invariant of Steel values);
   * rationals in lowest terms with denominator ≥ 2, bytes < 256 (invariants of Steel values);
   * no inexact / complex numbers (outside the model);
@@ -38,14 +41,27 @@ def symOK : Text → Bool
   | [] => false
   | c :: cs => symStartOK c && cs.all isPlainChar && !isAliased (c :: cs)
 
-/-- the symbols that steer the reader's quasi-quotation bookkeeping when they head a list -/
+/-- the symbols that make the reader RENAME the head of a list (`unquote` → `#%unquote` when a child list closes
+    at quasi-quotation depth 0).  `quasiquote` also steers the bookkeeping (it moves `quasiquote_depth`), but a
+    list headed by it is never renamed, and no datum the reader builds from written text depends on the depth
+    except through that renaming - so `quasiquote` heads are inside the class. -/
 def isQQ : Datum → Bool
-  | .sym s => s == symUnquote || s == symQuasi || s == symSplicing
+  | .sym s => s == symUnquote || s == symSplicing
   | _ => false
 
 def headOK : List Datum → Bool
   | [] => true
   | x :: _ => !isQQ x
+
+def isCompound : Datum → Bool
+  | .list _ | .vec _ | .bytes _ | .pair _ _ => true
+  | _ => false
+
+/-- every element after the first is an atom: no child list closes inside such a list, so the reader has no
+    occasion to rename its head -/
+def restAtomic : List Datum → Bool
+  | [] => true
+  | _ :: xs => xs.all (fun d => !isCompound d)
 
 def isListDatum : Datum → Bool
   | .list _ => true
@@ -59,9 +75,9 @@ def WF : Datum → Bool
   | .chr _ => true
   | .str _ => true
   | .sym s => symOK s
-  | .list xs => WFs xs && headOK xs
+  | .list xs => WFs xs && (headOK xs || restAtomic xs)
   | .pair a d => WF a && WF d && !isQQ a && !isListDatum d
-  | .vec xs => WFs xs && headOK xs
+  | .vec xs => WFs xs && (headOK xs || restAtomic xs)
   | .bytes bs => bs.all (fun b => decide (b < 256))
   | .flo _ => false
   | .other _ => false
